@@ -131,6 +131,13 @@ def end_to_end(case):
         wantn = [product.group_name(pol, sc or None) for pol, sc in case["imgs"]]
         if names != wantn:
             out["bad"].append(("imagery-names", f"{names} != {wantn}"))
+        # the name is derived from the FILE NAME on every route a tree can take: parsed while its index is written, and served from it
+        t2 = ceos_alos2.open_alos2(url, backend_options=dict(use_cache=False, create_cache=True))
+        t3 = ceos_alos2.open_alos2(url)
+        for how, t in (("create_cache=True", t2), ("served from the index", t3)):
+            got = list(t["imagery"].children) if "imagery" in t.children else None
+            if got != wantn:
+                out["bad"].append(("imagery-names-cached", f"{how}: {got} != {wantn}"))
     finally:
         imgrun.drop_from_fs(url, "local")
     return out
